@@ -14,6 +14,8 @@ import (
 // failed (failing tickets / superseded by a younger passed one / expired) while another one is passed or still answerable,
 // and THEN the blobber is replaced or the allocation cancelled / finalized: the close path sees a challenge pass rate
 // strictly between 0 and 1 with a non-empty challenge pool share. Every step is an ordinary transaction through h.Submit.
+// A second family ("open" variants) closes the allocation while one to three challenges of a blobber are unanswered: still inside
+// the completion window (they then count in the blobber's favour), past it (they count against it), or both.
 
 // stPassInfo is what the close path will see for one blobber of an allocation (recomputed from the state view).
 type stPassInfo struct {
@@ -338,10 +340,30 @@ func stScenarioPartialPass(h *Hist, r *mon.Rand) *Call {
 	}
 	h.stNextBlock(r, 30)
 
-	// (2) challenges until one (allocation, blobber) has a mixed record within reach
+	// (2) challenges until one (allocation, blobber) has a mixed record within reach; the "open" family only needs one
+	// unanswered challenge and prefers a blobber that has not failed any
+	wantOpen := r.Chance(0.45)
 	var g *stChalGroup
 	pickGroup := func() *stChalGroup {
 		var best *stChalGroup
+		if wantOpen {
+			score := func(x *stChalGroup) int {
+				sc := len(x.Open)
+				if x.Alloc == a.ID {
+					sc += 10
+				}
+				if x.Stats.FailedChallenges == 0 {
+					sc += 5
+				}
+				return sc
+			}
+			for _, x := range h.stChalGroups() {
+				if len(x.Open) >= 1 && (best == nil || score(x) > score(best)) {
+					best = x
+				}
+			}
+			return best
+		}
 		for _, x := range h.stChalGroups() {
 			if !stGroupReady(x) {
 				continue
@@ -375,7 +397,45 @@ func stScenarioPartialPass(h *Hist, r *mon.Rand) *Call {
 	canPass := h.stExecRound() >= conf.trigger() // passing needs the blobber in the ongoing reward partition (round >= trigger period)
 	oldest, newest := g.Open[0], g.Open[len(g.Open)-1]
 	variant := ""
+	respond := func(ch *stChal, pass bool) {
+		if c := stRespond(h, r, ch, pass); c != nil {
+			h.stInner(c)
+		}
+	}
+	moreChallenges := func(n int) {
+		for i := 0; i < n; i++ {
+			h.stInner(stGenChallenge(h, r))
+			h.stNextBlock(r, 10)
+		}
+	}
+	if wantOpen && h.Focus == "C14" && conf.MaxCCR > 40 && r.Chance(0.35) {
+		// the owner shortens the completion window through the contract's own settings path, so that unanswered challenges
+		// run out of it within this history
+		f := map[string]string{"max_challenge_completion_rounds": []string{"8", "20", "3"}[r.Intn(3)]}
+		if o := h.stInner(stCall(h, r, "update_settings", h.W.Owner, map[string]interface{}{"fields": f}, 0)); o.Outcome == "success" {
+			for k, v := range f {
+				st.Pending[k] = v
+			}
+			h.stInner(stCall(h, r, "commit_settings_changes", h.W.Miners[int(h.stExecRound())%len(h.W.Miners)], map[string]interface{}{}, 0))
+		}
+		h.stNextBlock(r, 10)
+		conf = h.stConf()
+	}
 	switch {
+	case wantOpen && len(g.Open) >= 2 && canPass && r.Chance(0.3):
+		variant = "open:pass-oldest-leave-rest-open"
+		respond(oldest, true)
+	case wantOpen && conf.MaxCCR <= 40 && r.Chance(0.5):
+		// everything open now runs out of its completion window, younger challenges (wherever they land) stay inside theirs
+		variant = "open:expired-and-younger-open"
+		h.stSkipRounds(int(conf.MaxCCR + 2 - (h.stExecRound() - newest.Round)))
+		moreChallenges(r.Intn(3))
+	case wantOpen:
+		// one to three unanswered challenges, all inside the completion window
+		variant = "open:leave-all-open"
+		if want := 1 + r.Intn(3); want > len(g.Open) {
+			moreChallenges(want - len(g.Open))
+		}
 	case len(g.Open) >= 2 && canPass && r.Chance(0.4):
 		variant = "fail-oldest-pass-next"
 		if c := stRespond(h, r, oldest, false); c != nil {
@@ -429,8 +489,14 @@ func stScenarioPartialPass(h *Hist, r *mon.Rand) *Call {
 	}
 	kinds := []string{"replace", "cancel", "finalize"}
 	kind := kinds[r.Intn(3)]
+	if wantOpen {
+		kind = kinds[1+r.Intn(2)] // the open family is about closing
+	}
 	if kind == "finalize" && st.ScenJumps >= 2 {
 		kind = kinds[r.Intn(2)]
+		if wantOpen {
+			kind = "cancel"
+		}
 	}
 	var c *Call
 	var np *stProv
@@ -483,6 +549,9 @@ func stScenarioPartialPass(h *Hist, r *mon.Rand) *Call {
 	c.Meta["partial_pass"] = h.stPartialProbe(target.ID, map[string]string{"replace": g.Blobber}[kind], kind, true) != ""
 	o := h.stInner(c)
 	fmt.Printf("SCENARIO-STEP %s variant=%s close=%s outcome=%s group_open=%d\n", h.ID, variant, kind, o.Outcome, len(g.Open))
+	if run := h.Runs[h.Focus]; run != nil {
+		run.Count("storage:scenario_close:"+variant+"|"+kind+"|"+o.Outcome, 1)
+	}
 	h.EndBlock()
 	return nil
 }
